@@ -45,6 +45,13 @@ pub open spec fn un_ok<A: IntoNode>(s: f32, op: UnaryOpcode, a: A, ops: Seq<Op>,
 pub open spec fn bin_ok<A: IntoNode, B: IntoNode>(s: f32, op: BinaryOpcode, a: A, b: B, ops: Seq<Op>, env: Env) -> bool {
     exists|x1: f32, y1: f32| #![trigger a.rep(ops, env, x1), b.rep(ops, env, y1)] a.rep(ops, env, x1) && b.rep(ops, env, y1) && keq(s, bin_sem(op, x1, y1))
 }
+/// selection: the condition's representative decides between the representatives of the two branches (finite operands, up to the
+/// sign of a zero result)
+pub open spec fn sel_ok<C: IntoNode, A: IntoNode, B: IntoNode>(s: f32, c: C, a: A, b: B, ops: Seq<Op>, env: Env) -> bool {
+    exists|c1: f32, x1: f32, y1: f32| #![trigger c.rep(ops, env, c1), a.rep(ops, env, x1), b.rep(ops, env, y1)]
+        c.rep(ops, env, c1) && a.rep(ops, env, x1) && b.rep(ops, env, y1)
+        && ((fin(c1) && fin(x1) && fin(y1)) ==> approx(s, if !fz(c1) { x1 } else { y1 }))
+}
 /// the same under the property's hedge (operands and unsimplified result finite) and up to the sign of a zero result
 pub open spec fn bin_ok_h<A: IntoNode, B: IntoNode>(s: f32, op: BinaryOpcode, a: A, b: B, ops: Seq<Op>, env: Env) -> bool {
     exists|x1: f32, y1: f32| #![trigger a.rep(ops, env, x1), b.rep(ops, env, y1)] a.rep(ops, env, x1) && b.rep(ops, env, y1)
@@ -95,6 +102,8 @@ pub proof fn ax_ctx()
         forall|x: f32, y: f32| fin(x) && fin(y) ==> approx((#[trigger] fx_max_choice(x, y)).0, fx_max_choice(y, x).0),
         forall|x: f32, y: f32| (#[trigger] fx_and_choice(x, y)).0 == (if fz(x) { x } else { y }),                          // ctxax_and_or
         forall|x: f32, y: f32| (#[trigger] fx_or_choice(x, y)).0 == (if !fz(x) { x } else { y }),
+        forall|x: f32| #[trigger] fx_not(x) == (if fz(x) { 1.0f32 } else { 0.0f32 }),                                        // ctxax_not
+        fz(0.0f32),
 { admit(); }
 /// R-floatpat: a float literal pattern `Ok(L)` matches `Ok(v)` iff `v == L`
 pub fn okf_eq(r: &Result<f32, ConstError>, l: f32) -> (b: bool)
@@ -295,7 +304,8 @@ def generate(UNARY, UNARY_OP, BIN_EXACT, BIN_REWRITE, F1, F2):
 ''')
     S['Context::if_nonzero_else'] = ('r: Result<Node, BadNode>', '''
         requires wf(old(self).ops@)
-        ensures (r is Ok && condition.valid(old(self).ops@) && a.valid(old(self).ops@) && b.valid(old(self).ops@)) ==> grown(old(self).ops@, final(self).ops@, r->Ok_0),
+        ensures (r is Ok && condition.valid(old(self).ops@) && a.valid(old(self).ops@) && b.valid(old(self).ops@)) ==> grown(old(self).ops@, final(self).ops@, r->Ok_0)
+                && forall|env: Env| sel_ok(#[trigger] sem(final(self).ops@, r->Ok_0.0 as int, env), condition, a, b, old(self).ops@, env),
             (condition.valid(old(self).ops@) && a.valid(old(self).ops@) && b.valid(old(self).ops@)) ==> r is Ok,
 ''')
     specs = S
@@ -377,6 +387,45 @@ def generate(UNARY, UNARY_OP, BIN_EXACT, BIN_REWRITE, F1, F2):
                         }
                     }
                 }""" % {'node': node, 'body': body})
+    replace.append(('@@Context::if_nonzero_else@@/*@e:sel*/', """proof {
+            let o7_ = self.ops@;
+            if condition0_.valid(o0_) && a0_.valid(o0_) && b0_.valid(o0_) && r_ is Ok {
+                lemma_sem_ext_all(o6_, o7_); lemma_ext_trans(o0_, o6_, o7_);
+                assert forall|env: Env| sel_ok(#[trigger] sem(o7_, r_->Ok_0.0 as int, env), condition0_, a0_, b0_, o0_, env) by {
+                    let c1 = sem(o3_, condition.0 as int, env); let x1 = sem(o3_, a.0 as int, env); let y1 = sem(o3_, b.0 as int, env);
+                    assert(condition0_.rep(o0_, env, c1)); assert(a0_.rep(o0_, env, x1)); assert(b0_.rep(o0_, env, y1));
+                    let s = sem(o7_, r_->Ok_0.0 as int, env);
+                    if fin(c1) && fin(x1) && fin(y1) {
+                        let s1 = sem(o4_, lhs.0 as int, env);
+                        let s2 = sem(o5_, n_condition.0 as int, env);
+                        let s3 = sem(o6_, rhs.0 as int, env);
+                        // lhs = and(condition, a)
+                        assert(bin_ok_h(s1, BinaryOpcode::And, condition, a, o3_, env));
+                        assert(fx_and_choice(c1, x1).0 == (if fz(c1) { c1 } else { x1 }));
+                        assert(approx(s1, fx_and_choice(c1, x1).0));
+                        // n_condition = not(condition)
+                        assert(sem(o4_, condition.0 as int, env) == c1);
+                        assert(un_ok(s2, UnaryOpcode::Not, condition, o4_, env));
+                        assert(keq(s2, fx_not(c1)));
+                        assert(s2 == fx_not(c1) || (fz(s2) && fz(fx_not(c1))));
+                        // rhs = and(n_condition, b)
+                        assert(sem(o5_, b.0 as int, env) == y1);
+                        assert(sem(o5_, n_condition.0 as int, env) == s2);
+                        assert(bin_ok_h(s3, BinaryOpcode::And, n_condition, b, o5_, env));
+                        assert(fin(s2));
+                        assert(fx_and_choice(s2, y1).0 == (if fz(s2) { s2 } else { y1 }));
+                        assert(approx(s3, fx_and_choice(s2, y1).0));
+                        // r = or(lhs, rhs)
+                        assert(sem(o6_, lhs.0 as int, env) == s1);
+                        assert(bin_ok_h(s, BinaryOpcode::Or, lhs, rhs, o6_, env));
+                        assert(fin(s1)); assert(fin(s3));
+                        assert(fx_or_choice(s1, s3).0 == (if !fz(s1) { s1 } else { s3 }));
+                        assert(approx(s, fx_or_choice(s1, s3).0));
+                        assert(approx(s, if !fz(c1) { x1 } else { y1 }));
+                    }
+                }
+            }
+        }"""))
     replace.append(('@@Context::or@@/*@ret:1*/', ret_proof('a', 'assert(x == v.0);')))
     replace.append(('@@Context::or@@/*@ret:2*/', ret_proof('b', 'assert(x == v.0);')))
     replace.append(('@@Context::or@@/*@ret:3*/', ret_proof('a', 'assert(y == v.0);')))
